@@ -10,7 +10,9 @@ TECHNIQUE = ('deterministic simulation: seeded line-level schedules of watcher/u
              'around the real SubscribableStateMixin, lost-update oracle + deadlock detector')
 LEVEL_TEXT = ('seeded exploration of line-level interleavings of 1-2 watcher and 1-2 updater threads on the real '
               'SubscribableStateMixin / FrontendAwareBasePlug / PlugManager.wait_for_plug_update, and of watcher threads '
-              'attached to whole simulated test runs; every (snapshot, event) pair is checked against the notifications '
+              'attached to whole simulated test runs (stale-while-waiting invariant: a watcher whose event is not set holds a snapshot '
+              'that contains every completed change), and a prompter / responder / passive-watcher scenario on the stock UserInput '
+              'plug in which the responder learns of prompts through (state, event) only; every (snapshot, event) pair is checked against the notifications '
               'issued after its state read, and the deadlock detector reports a watcher blocked forever. Sampling, not '
               'exhaustive: the preemption-bounded exhaustive clause of the property is not claimed.')
 LEVEL_NOTE = ('trusted: the simulator (simkit), CPython threading.Event/Condition semantics on simulated locks; '
@@ -27,7 +29,8 @@ ASSUMPTIONS = [
 ]
 COMPONENTS = {
     'real': ['openhtf.util.SubscribableStateMixin', 'openhtf.core.base_plugs.FrontendAwareBasePlug',
-             'openhtf.plugs.PlugManager.wait_for_plug_update', 'threading.Event/Condition (CPython)',
+             'openhtf.plugs.PlugManager.wait_for_plug_update', 'openhtf.plugs.user_input.UserInput (prompt / respond / remove_prompt)',
+             'threading.Event/Condition (CPython)',
              'openhtf.core.test_state.TestState (whole-run mode)', 'Test.execute / TestExecutor / PhaseExecutor (whole-run mode)'],
     'simulated': ['locks', 'thread scheduling', 'clock/sleep', 'station server (replaced by watcher threads using asdict_with_event)'],
 }
@@ -35,7 +38,7 @@ WARMUP = 12
 QUICK = {'budget_s': 40}
 THOROUGH = {'budget_s': 480}
 EXPECTED_PROBES = ['notify_inside_snapshot_window', 'two_watchers_one_notify', 'watcher_woken',
-                   'checked_while_watcher_waits', 'whole_run_watcher_saw_completed']
+                   'checked_while_watcher_waits', 'whole_run_watcher_saw_completed', 'user_input_scenario']
 
 _mods = {}
 
@@ -51,10 +54,88 @@ def setup():
 
 
 def run_one(tape):
-  mode = tape.weighted([(6, 'micro'), (3, 'exec')], 'mode')
+  mode = tape.weighted([(6, 'micro'), (3, 'exec'), (2, 'user_input')], 'mode')
   if mode == 'exec':
     return run_exec(tape)
+  if mode == 'user_input':
+    return run_user_input(tape)
   return run_micro(tape)
+
+
+# -------------------------------------------------------- UserInput plug (frontend-aware)
+def run_user_input(tape):
+  """The stock UserInput plug: a prompter (phase side), a responder that learns of prompts through
+  (state, event) only, and passive watchers.  Every prompt must be answered (a lost notification
+  leaves the responder asleep until the prompt times out) and no watcher may keep a stale prompt."""
+  wsub = _mods['wsub']
+  from openhtf.plugs import user_input
+  env.hygiene()
+  n = 1 + tape.draw(3, 'nprompts')
+  n_w = tape.draw(3, 'n_watchers')
+  knobs = core.Knobs(p_sync=tape.pick([0, 100, 300, 600], 'p_sync'), gap_mean=tape.pick([0, 2, 4, 8, 20], 'gap'),
+                     hot_span=0, max_steps=300000, max_time=100000.0)
+  viols = []
+  probes = {'user_input_scenario': 1}
+  out = []
+  pairs = {}
+  done = {}
+  with env.NoGC(25):
+    sim = core.Sim(tape, env.TRACE_PREFIXES, knobs)
+    sim.begin()
+    try:
+      plug = user_input.UserInput()
+      ths = [threading.Thread(target=wsub.ui_prompter, args=(sim, plug, n, out), name='prompter'),
+             threading.Thread(target=wsub.ui_responder, args=(sim, plug, n, out), name='responder')]
+      ws = [threading.Thread(target=wsub.ui_watcher, args=(sim, plug, w, done, pairs), name='uiwatcher%d' % w)
+            for w in range(n_w)]
+      allt = ths + ws
+      order = list(range(len(allt)))
+      for i in range(len(order) - 1, 0, -1):
+        j = tape.draw(i + 1, 'shuffle')
+        order[i], order[j] = order[j], order[i]
+      for t in allt:
+        t.daemon = True
+      for i in order:
+        allt[i].start()
+      for t in ths:
+        t.join()
+      done['over'] = True
+      # the final state is "no prompt": every watcher either saw it or has its event set
+      for w in range(n_w):
+        if w in pairs:
+          seen, ev = pairs[w]
+          if seen is not None and not ev.is_set():
+            viols.append({'clause': 'watcher_keeps_answered_prompt_without_notification', 'details': {'watcher': w, 'sees': seen}})
+      plug.notify_update()   # lets passive watchers finish
+      for t in ws:
+        t.join()
+    except core.Deadlock as e:
+      viols.append({'clause': 'watcher_blocked_forever', 'details': {'blocked': str(e)[:300], 'subject': 'user_input'}})
+    except core.SimAbort:
+      pass
+    finally:
+      failed = sim.failed
+      sim.end()
+  if failed is None:
+    for item in out:
+      if item[0] == 'unanswered':
+        viols.append({'clause': 'prompt_not_answered', 'details': {'prompt': item[1]}})
+      elif item[0] == 'responder_timeout':
+        viols.append({'clause': 'responder_never_notified_of_prompt', 'details': {'answered': item[1], 'of': n}})
+      elif item[0] == 'answered' and item[2] != 'answer to question %d' % item[1]:
+        viols.append({'clause': 'prompt_got_wrong_answer', 'details': {'prompt': item[1], 'answer': item[2]}})
+    if not any(i[0] == 'done' for i in out) and not viols:
+      viols.append({'clause': 'prompter_did_not_finish', 'details': {'out': [list(map(str, i)) for i in out][:4]}})
+  abnormal = None
+  if failed in ('steplimit', 'hang', 'unwind'):
+    abnormal = '%s: %s' % (failed, sim.failed_info)
+  return {
+      'violations': viols[:1], 'digest': sim.digest(), 'sched': sim.sched_digest(), 'nontrivial': sim.switches > 2,
+      'faults': {}, 'probes': probes, 'steps': sim.steps, 'switches': sim.switches, 'preempts': sim.preemptions,
+      'sim_s': sim.now - core.T0, 'sample': {'mode': 'user_input', 'prompts': n, 'watchers': n_w,
+                                             'events': [list(e[2:]) for e in sim.log[:30]]},
+      'abnormal': abnormal, 'poison': bool(failed),
+  }
 
 
 # ------------------------------------------------------------ whole-run mode
